@@ -1,8 +1,220 @@
-//! C01 correspondence streams (stub).
-use crate::util::Opts;
+//! C01/C02: native differential of translated blocks against the interpreter.
+//! Every case builds two identical machines (real `Core::from_rom_file` on a pattern ROM with the block patched in),
+//! runs the block once through `interpreter::run_code_block` and once through `CodeCache::translate_code_block` +
+//! `CodeCache::call`, and prints both outcomes.  Cases run in a child process; a dead child (JIT fault) is itself an outcome.
+//! c01 idx= code=<hex> at= regs=af,bc,de,hl,sp pre=a:v;.. probes=a,.. | i=<regs;st;writes;small;probes;rb> j=<...> jd=<0|sig>
+use crate::cpucase::{byte, ptr, small_digest};
+use crate::emulator::Core;
+use crate::interpreter;
+use crate::mem::{memory_read_byte, memory_write_byte, verif_trace, MemoryAreas};
+use crate::roms::*;
+use crate::util::{hex, Opts, Rng};
 use std::io::Write;
+use std::process::{Command, Stdio};
 
-pub fn run(sub: &str, _opts: &Opts, _w: &mut dyn Write) {
-  eprintln!("stream c01.{} not implemented", sub);
-  std::process::exit(2);
+pub struct BlockCase {
+  pub code: Vec<u8>,
+  pub at: u16,
+  pub regs: [u32; 5],
+  pub pre: Vec<(u16, u8)>,
+  pub probes: Vec<u16>,
+}
+
+const UNDEF: [u8; 11] = [0xd3, 0xdb, 0xdd, 0xe3, 0xe4, 0xeb, 0xec, 0xed, 0xf4, 0xfc, 0xfd];
+pub fn is_term(b: u8) -> bool {
+  matches!(b, 0x10 | 0x18 | 0x20 | 0x28 | 0x30 | 0x38 | 0x76 | 0xc0 | 0xc2 | 0xc3 | 0xc4 | 0xc7 | 0xc8 | 0xc9 | 0xca | 0xcc | 0xcd | 0xcf
+    | 0xd0 | 0xd2 | 0xd4 | 0xd7 | 0xd8 | 0xd9 | 0xda | 0xdc | 0xdf | 0xe7 | 0xe9 | 0xef | 0xf3 | 0xf7 | 0xfb | 0xff)
+}
+pub const TERMS: [u8; 34] = [0x10, 0x18, 0x20, 0x28, 0x30, 0x38, 0x76, 0xc0, 0xc2, 0xc3, 0xc4, 0xc7, 0xc8, 0xc9, 0xca, 0xcc, 0xcd, 0xcf,
+  0xd0, 0xd2, 0xd4, 0xd7, 0xd8, 0xd9, 0xda, 0xdc, 0xdf, 0xe7, 0xe9, 0xef, 0xf3, 0xf7, 0xfb, 0xff];
+
+pub fn op_len(b0: u8) -> usize { crate::decoder::decode(&[b0, 0, 0]).1 }
+
+fn push_op(code: &mut Vec<u8>, b0: u8, rng: &mut Rng) {
+  code.push(b0);
+  let n = op_len(b0);
+  if b0 == 0xcb { code.push(rng.u8()); }
+  else if b0 == 0x10 { code.push(0x00); }
+  else { for _ in 1..n { code.push(byte(rng)); } }
+}
+
+/// case `idx` is a pure function of (seed, idx, tier)
+pub fn gen(seed: u64, idx: usize, thorough: bool) -> BlockCase {
+  let mut rng = Rng::new(seed ^ (idx as u64).wrapping_mul(0x9E3779B97F4A7C15) ^ 0xc01);
+  let mut code: Vec<u8> = Vec::new();
+  let n_enc = 500usize;
+  let per = if thorough { 400 } else { 12 };
+  if idx < n_enc * per {
+    // single encoding followed by HALT (terminators stand alone)
+    let k = idx / per;
+    let encs = crate::s_c05::encodings();
+    let (b0, cb) = encs[k % encs.len()];
+    code.push(b0);
+    match cb { Some(c) => code.push(c), None => { if b0 == 0x10 { code.push(0) } else { for _ in 1..op_len(b0) { code.push(byte(&mut rng)); } } } }
+    if !is_term(b0) { code.push(0x76); }
+  } else {
+    // straight-line block of 1..N ops ending in each kind of terminator
+    let n = 1 + rng.below(if thorough { 24 } else { 10 }) as usize;
+    for _ in 0..n {
+      loop {
+        let b0 = rng.u8();
+        if UNDEF.contains(&b0) || is_term(b0) { continue; }
+        push_op(&mut code, b0, &mut rng);
+        break;
+      }
+    }
+    let t = TERMS[(idx - n_enc * per) % TERMS.len()];
+    push_op(&mut code, t, &mut rng);
+  }
+  let at: u16 = match rng.below(6) {
+    0 => 0x0150, 1 => rng.below(0x3f00) as u16, 2 => 0x4000 + rng.below(0x3f00) as u16,
+    3 => (0x4000 - code.len() + rng.below(3) as usize) as u16, 4 => (0x8000 - code.len()) as u16, _ => 0x0200 + rng.below(0x1000) as u16,
+  };
+  let a = byte(&mut rng); let f = (rng.u8() & 0xf0) as u32;
+  let (bc, de, hl, sp) = (ptr(&mut rng), ptr(&mut rng), ptr(&mut rng), ptr(&mut rng));
+  let bc = if rng.chance(1, 2) { ((byte(&mut rng) as u16) << 8) | byte(&mut rng) as u16 } else { bc };
+  let mut pre = Vec::new(); let mut probes = Vec::new();
+  for base in [hl, bc, de, sp, sp.wrapping_add(1), sp.wrapping_sub(1), sp.wrapping_sub(2), 0xff00 | (bc & 0xff), hl.wrapping_add(1), hl.wrapping_sub(1)] {
+    if base >= 0x8000 && !(0xff00..0xff80).contains(&base) && base != 0xffff { pre.push((base, byte(&mut rng))); }
+    probes.push(base);
+  }
+  if rng.chance(1, 4) { pre.push((0xffff, rng.u8())); pre.push((0xff0f, rng.u8())); }
+  BlockCase { code, at, regs: [((a as u32) << 8) | f, bc as u32, de as u32, hl as u32, sp as u32], pre, probes }
+}
+
+pub fn setup(c: &BlockCase) -> Core {
+  let mut core = mk_core(0x03, 1, 3);
+  for (k, b) in c.code.iter().enumerate() {
+    let a = c.at as usize + k;
+    // bank 1 is mapped at 0x4000 after reset, so the global index equals the bus address below 0x8000
+    if a < core.memory.rom.len() { core.memory.rom[a] = *b; }
+  }
+  let p = &mut core.memory as *mut MemoryAreas;
+  for (a, v) in c.pre.iter() { memory_write_byte(p, *a, *v); }
+  core.registers.af = c.regs[0]; core.registers.bc = c.regs[1]; core.registers.de = c.regs[2];
+  core.registers.hl = c.regs[3]; core.registers.sp = c.regs[4]; core.registers.ip = c.at as u32; core.registers.cycles = 0;
+  core
+}
+
+fn outcome(core: &mut Core, status: u8, c: &BlockCase, trace: Vec<(u8, u16, u8)>) -> String {
+  let p = &mut core.memory as *mut MemoryAreas;
+  let r = &core.registers;
+  let (af, bc, de, hl, sp, ip, cy) = (r.af, r.bc, r.de, r.hl, r.sp, r.ip, r.cycles);
+  let writes: Vec<String> = trace.iter().filter(|t| t.0 == 1).map(|t| format!("{}:{}", t.1, t.2)).collect();
+  let pv: Vec<String> = c.probes.iter().map(|a| memory_read_byte(p, *a).to_string()).collect();
+  format!("{},{},{},{},{},{},{};{};{};{};{};{}", af, bc, de, hl, sp, ip, cy, status, writes.join("+"), small_digest(p), pv.join(","),
+    core.memory.cart_state.get_rom_bank())
+}
+
+pub fn run_interp(c: &BlockCase) -> String {
+  let mut core = setup(c);
+  let p = &mut core.memory as *mut MemoryAreas;
+  verif_trace::start();
+  let st = interpreter::run_code_block(&mut core.registers, p);
+  let tr = verif_trace::take();
+  outcome(&mut core, st, c, tr)
+}
+
+/// does the translation starting at `ip` end with a real block terminator (rather than at the end of its ROM region)?
+fn ends_with_terminator(core: &Core, ip: usize) -> bool {
+  let mut index = ip;
+  loop {
+    if index != ip && !crate::mem::can_dynarec(index) { return false; }
+    let seg = core.cache.get_executable_memory_segment(index, core.memory.as_ptr());
+    let (op, len, _) = crate::decoder::decode(seg);
+    if op.is_block_end() { return true; }
+    index += len;
+  }
+}
+
+/// the `jit` arm of `Core::run_code_block` (translate or look up, call; interpreter where `can_dynarec` is false),
+/// repeated until the guest block's terminator has executed
+pub fn run_jit(c: &BlockCase) -> String {
+  let mut core = setup(c);
+  verif_trace::start();
+  let mut st;
+  loop {
+    let ip = core.registers.ip as usize;
+    if crate::mem::can_dynarec(ip) {
+      let term = ends_with_terminator(&core, ip);
+      let addr = match core.cache.get_address_for_ip(ip) {
+        Some(a) => a,
+        None => core.cache.translate_code_block(&core.memory.rom, ip, core.memory.as_ptr()),
+      };
+      st = core.cache.call(addr, &mut core.registers);
+      if term { break; }
+    } else {
+      let p = &mut core.memory as *mut MemoryAreas;
+      st = interpreter::run_code_block(&mut core.registers, p);
+      break;
+    }
+  }
+  let tr = verif_trace::take();
+  outcome(&mut core, st, c, tr)
+}
+
+fn header_part(idx: usize, c: &BlockCase) -> String {
+  let pre: Vec<String> = c.pre.iter().map(|(a, v)| format!("{}:{}", a, v)).collect();
+  let pr: Vec<String> = c.probes.iter().map(|a| a.to_string()).collect();
+  format!("c01 idx={} code={} at={} regs={},{},{},{},{} pre={} probes={}", idx, hex(&c.code), c.at,
+    c.regs[0], c.regs[1], c.regs[2], c.regs[3], c.regs[4], pre.join(";"), pr.join(","))
+}
+
+/// child: cases from..to on fd 2, one line each, flushed (`J idx <jit outcome>` after `I idx <interp outcome>`)
+pub fn child(opts: &Opts) {
+  let from = opts.get_usize("from", 0); let to = opts.get_usize("to", 0);
+  let err = std::io::stderr();
+  for idx in from..to {
+    let c = gen(opts.seed, idx, opts.thorough);
+    let i = run_interp(&c);
+    { let mut e = err.lock(); writeln!(e, "I {} {}", idx, i).unwrap(); e.flush().unwrap(); }
+    let j = run_jit(&c);
+    { let mut e = err.lock(); writeln!(e, "J {} {}", idx, j).unwrap(); e.flush().unwrap(); }
+  }
+}
+
+pub fn total(thorough: bool) -> usize { if thorough { 500 * 400 + 100_000 } else { 500 * 12 + 2_000 } }
+
+pub fn run(sub: &str, opts: &Opts, w: &mut dyn Write) {
+  if sub == "child" { child(opts); return; }
+  let exe = std::env::current_exe().unwrap();
+  let (shard, nshards) = opts.shard();
+  let n = total(opts.thorough);
+  let (lo, hi) = (n * shard / nshards, n * (shard + 1) / nshards);
+  let tier = if opts.thorough { "thorough" } else { "quick" };
+  let mut from = lo;
+  while from < hi {
+    let out = Command::new(&exe).arg("c01.child").arg("--from").arg(from.to_string()).arg("--to").arg(hi.to_string())
+      .arg("--seed").arg(opts.seed.to_string()).arg("--tier").arg(tier).env("RUST_BACKTRACE", "0")
+      .stdin(Stdio::null()).stdout(Stdio::null()).stderr(Stdio::piped()).output().unwrap();
+    let so = String::from_utf8_lossy(&out.stderr).to_string();
+    let mut last_i: Option<(usize, String)> = None;
+    let mut next = from;
+    for l in so.lines() {
+      let mut it = l.splitn(3, ' ');
+      match (it.next(), it.next().and_then(|x| x.parse::<usize>().ok()), it.next()) {
+        (Some("I"), Some(idx), Some(rest)) => { last_i = Some((idx, rest.to_string())); },
+        (Some("J"), Some(idx), Some(rest)) => {
+          if let Some((ii, i)) = last_i.take() { if ii == idx {
+            let c = gen(opts.seed, idx, opts.thorough);
+            writeln!(w, "{} | i={} j={} jd=0", header_part(idx, &c), i, rest).unwrap();
+            next = idx + 1;
+          }}
+        },
+        _ => (),
+      }
+    }
+    if next < hi && !out.status.success() {
+      // the child died inside case `next` (interpreter outcome may or may not have been printed)
+      use std::os::unix::process::ExitStatusExt;
+      let why = match out.status.signal() { Some(s) => format!("sig{}", s), None => format!("exit{}", out.status.code().unwrap_or(-1)) };
+      let c = gen(opts.seed, next, opts.thorough);
+      let i = match last_i { Some((ii, i)) if ii == next => i, _ => String::from("died") };
+      writeln!(w, "{} | i={} j=died jd={}", header_part(next, &c), i, why).unwrap();
+      next += 1;
+    } else if next < hi && out.status.success() {
+      break;
+    }
+    from = next;
+  }
 }
